@@ -234,9 +234,9 @@ func init() {
 		Rule: "collections = all sequences of length 0..3 (quick) / 0..4 (thorough) over the 8-item alphabet {1, 1(dup), 2, 1.0, 'a', nameA, nameA'(equal copy), nameB} supplied as an environment variable, x 13 criteria with harness-computed three-valued truth (where/exists/all/select), x all n in [-3,len+3] u {MinInt32,MaxInt32} (take/skip/indexer/first/tail/last), distinct/isDistinct/empty/count; all ordered pairs of collections of length <=2 (quick) / <=3 (thorough) for exclude/intersect; path-derived collections of hand-sized resources for the relational equations and extension(url); results compared by pointer identity for FHIR elements and by type+value for System items; non-trivial = distinct (collection, program, outcome)",
 		Assumptions: []string{"the reference equality partition of the 8-item alphabet (1 = 1.0; equal copies of a complex element are equal) is hand-written and agrees with C05's reference comparator"},
 		Subs: func(tier string) []core.Sub {
-			maxLen, pairLen := 3, 2
+			maxLen, pairLen := 4, 3
 			if tier == "thorough" {
-				maxLen, pairLen = 4, 3
+				maxLen, pairLen = 5, 3
 			}
 			nColl := c10Count(K, maxLen)
 			nPair := c10Count(K, pairLen)
